@@ -42,7 +42,8 @@ CATALOGUE = ["{{a|b=c}}", "[[a|b]]", "<b a=\"c\">x</b>", "&amp;&#x41;&#65;", "==
              "<a\x00b>x</a\x00b>", "</b\x00r >", "<b\x00>", "<br\x00/>", "ht\x00tp://a.b", "[ht\x00tp://a.b c]", "<nowiki\x00>x</nowiki\x00>", "&#\u0661;",
              "<\u00e9>x</\u00e9>", "</\u00e9 >", "<b\u0130>x</b\u0130>",
              "[http://a.com [[http://b.com]]]", "[http://a [[//b c]] d]", "[http://a [[b]] [[c|d]] e]", "[[http://a [[http://b c]] d]]", "http://a.b" + "." * 120 + " c",
-             "x http://a.b/c" + ",;:!?" * 40, "[http://a.b c" + "]" * 3, "{{a|http://b.c|d=e}}", "{{{a|http://b.c/}}d}}}", "{|\n| {{a\n|b}} | c\n|}", "{|\n|-\n|- a=b\n|}"]
+             "x http://a.b/c" + ",;:!?" * 40, "[http://a.b c" + "]" * 3, "{{a|http://b.c|d=e}}", "{{{a|http://b.c/}}d}}}", "{|\n| {{a\n|b}} | c\n|}", "{|\n|-\n|- a=b\n|}",
+             "{{a|{{b|http:// ", "{{a|[[b|mailto: ", "\u0027\u0027x {{a|ftp:// y", "{{a|{{b|[http:// c]", "==a=b==\n", "=== x = y = z ===", "{{a|x\u0027\u0027\u0027\u0027\u0027y\u0027\u0027\u0027}}", "foo\u0027\u0027\u0027\u0027\u0027bar"]
 
 
 NCAT = len(CATALOGUE) * 6
